@@ -440,125 +440,215 @@ fn unzigzag(q: u32, p: u8, r: u32) -> i64 {
     if folded & 1 == 1 { -(((folded >> 1) + 1) as i64) } else { (folded >> 1) as i64 }
 }
 
+use crate::bitsink::verif_kani::CountSink;
+
 //@ prop: C08
-//@ also: C01 C02
-//@ drives: Constant::write, Constant::count_bits, Verbatim::write, Verbatim::count_bits, BitSink::write_twoc (default method)
-//@ bound: constant subframe of any block size <= 16; verbatim subframes of 1 and 3 samples; every legal width 8,9,12,13,...,24,25 (side channels are one bit wider); every sample value of that width; written to a recording user sink
-//@ asserts: bits written == count_bits(); the RFC 9639 reference subframe decoder returns the subframe type and exactly the samples (sign included); zero padding bit and zero wasted-bits flag
+//@ drives: Constant::write/count_bits, Verbatim::write/count_bits, FixedLpc::write/count_bits, Lpc::write/count_bits, Residual::write/count_bits, BitSink::write_twoc and BitSink::write_zeros (default methods)
+//@ bound: every legal width 8,9,12,13,..,25 and every sample value; constant (any block size), verbatim of 3 samples, fixed order 0 and 2, LPC order 2 with every precision 1..=15 / shift 0..=15 / coefficient, over residuals of block 4 with 1 or 2 partitions, warm-up 0..=2, parameters 0..=14, quotients free over all of u32 (the sink only counts, so zero runs of any length are covered)
+//@ asserts: the number of bits handed to a counting user sink equals count_bits() for every component
 #[kani::proof]
-#[kani::unwind(20)]
-fn c08_constant_and_verbatim() {
+#[kani::unwind(12)]
+fn c08_subframe_bit_counts() {
+    let bps = gen::any_bps();
     let sel: u8 = kani::any();
-    let mut sink = RecSink::new(usize::MAX);
-    let mut out = [0i64; rsub::MAXB];
+    let mut sink = CountSink { len: 0 };
     if sel == 0 {
-        let block: usize = kani::any();
-        kani::assume(block >= 1 && block <= 16);
-        let c = gen::any_constant(block);
-        let r = c.write(&mut sink);
-        assert!(r.is_ok());
-        std::mem::forget(r);
+        let c = gen::any_constant(kani::any());
+        assert!(c.write(&mut sink).is_ok());
         assert!(sink.len == c.count_bits() && sink.len == 8 + c.bits_per_sample());
-        let bytes = rec_bytes(&sink);
-        let mut rd = rf::BitReader::new(&bytes);
-        let info = rsub::decode_subframe(&mut rd, block, c.bits_per_sample(), &mut out, 4);
-        assert!(matches!(info, Ok(i) if i.kind == 0));
-        assert!(rd.pos == sink.len);
-        assert!(out[0] == c.dc_offset() as i64 && out[block - 1] == c.dc_offset() as i64);
-        kani::cover!(c.dc_offset() < 0 && c.bits_per_sample() == 25);
     } else if sel == 1 {
-        let v = gen::any_verbatim::<1>();
-        let r = v.write(&mut sink);
-        assert!(r.is_ok());
-        std::mem::forget(r);
-        assert!(sink.len == v.count_bits());
-        let bytes = rec_bytes(&sink);
-        let mut rd = rf::BitReader::new(&bytes);
-        let info = rsub::decode_subframe(&mut rd, 1, v.bits_per_sample(), &mut out, 4);
-        assert!(matches!(info, Ok(i) if i.kind == 1));
-        assert!(rd.pos == sink.len && out[0] == v.samples()[0] as i64);
-        std::mem::forget(v);
-    } else {
         let v = gen::any_verbatim::<3>();
-        let r = v.write(&mut sink);
-        assert!(r.is_ok());
-        std::mem::forget(r);
+        assert!(v.write(&mut sink).is_ok());
         assert!(sink.len == v.count_bits() && sink.len == 8 + 3 * v.bits_per_sample());
-        let bytes = rec_bytes(&sink);
-        let mut rd = rf::BitReader::new(&bytes);
-        let info = rsub::decode_subframe(&mut rd, 3, v.bits_per_sample(), &mut out, 4);
-        assert!(matches!(info, Ok(i) if i.kind == 1));
-        assert!(rd.pos == sink.len);
-        assert!(out[0] == v.samples()[0] as i64 && out[1] == v.samples()[1] as i64 && out[2] == v.samples()[2] as i64);
-        kani::cover!(v.samples()[1] < 0 && v.bits_per_sample() == 13);
         std::mem::forget(v);
+    } else if sel == 2 {
+        let r = gen::any_residual::<4, 1, 2>(kani::any::<bool>() as usize * 2, u32::MAX);
+        assert!(r.write(&mut sink).is_ok());
+        assert!(sink.len == r.count_bits());
+        kani::cover!(r.sum_quotients() > (1usize << 33));
+        std::mem::forget(r);
+    } else if sel == 3 {
+        let f = gen::fixed_from::<0>([], gen::any_residual::<4, 0, 1>(0, u32::MAX), bps);
+        assert!(f.write(&mut sink).is_ok());
+        assert!(sink.len == f.count_bits());
+        std::mem::forget(f);
+    } else if sel == 4 {
+        let warm = [gen::any_sample(bps), gen::any_sample(bps)];
+        let f = gen::fixed_from::<2>(warm, gen::any_residual::<4, 0, 1>(2, u32::MAX), bps);
+        assert!(f.write(&mut sink).is_ok());
+        assert!(sink.len == f.count_bits());
+        std::mem::forget(f);
+    } else {
+        let warm = [gen::any_sample(bps), gen::any_sample(bps)];
+        let precision: usize = kani::any();
+        kani::assume(precision >= 1 && precision <= 15);
+        let shift: i8 = kani::any();
+        kani::assume(shift >= 0 && shift <= 15);
+        let coefs: [i16; 2] = kani::any();
+        let lim = 1i32 << (precision - 1);
+        kani::assume((coefs[0] as i32) < lim && (coefs[0] as i32) >= -lim && (coefs[1] as i32) < lim && (coefs[1] as i32) >= -lim);
+        let l = gen::lpc_from::<2>(warm, coefs, shift, precision, gen::any_residual::<4, 0, 1>(2, u32::MAX), bps);
+        assert!(l.write(&mut sink).is_ok());
+        assert!(sink.len == l.count_bits());
+        kani::cover!(precision == 15 && sink.len > 100);
+        std::mem::forget(l);
+    }
+    kani::cover!(sel == 1);
+}
+
+// ---- serialisation content (C01/C02): the real writer against a reference WRITER built from
+// RFC 9639 (field order and widths written out below); both record into a RecSink and the
+// recorded strings must be identical.  (A reference decoder over symbolic bit positions was
+// measured to exhaust 12 GB; the subframe decoder in verif_ref::subframe is used natively.)
+fn ref_put_signed(s: &mut RecSink, v: i64, n: usize) {
+    s.put((v as u64) << (64 - n), n);
+}
+fn ref_put_residual(s: &mut RecSink, r: &Residual) {
+    s.put(0, 2); // coding method 00: 4-bit Rice parameters
+    s.put((r.partition_order() as u64) << 60, 4);
+    let nparts = 1usize << r.partition_order();
+    let plen = r.block_size() / nparts;
+    let mut t = r.warmup_length();
+    let mut p = 0;
+    while p < nparts {
+        let param = r.rice_params()[p] as usize;
+        s.put((param as u64) << 60, 4);
+        while t < (p + 1) * plen {
+            let q = r.quotients()[t] as usize;
+            s.put(0, q); // q zeros (q <= 64 in these harnesses)
+            s.put(1u64 << 63, 1); // stop bit
+            if param > 0 {
+                s.put((r.remainders()[t] as u64) << (64 - param), param);
+            }
+            t += 1;
+        }
+        p += 1;
     }
 }
 
-fn residual_case<const B: usize, const PO: u8, const NP: usize>(max_q: u32) -> bool {
+//@ prop: C01
+//@ also: C02 C08
+//@ drives: Constant::write, Verbatim::write, BitSink::write_twoc (default method)
+//@ bound: constant subframe and verbatim subframe of 2 samples; every legal width 8,9,12,..,25; every sample value of that width
+//@ asserts: the bits handed to a recording user sink are exactly: 0 (padding) | 6-bit type (000000 constant / 000001 verbatim) | 0 (no wasted bits) | each sample as a two's complement field of the declared width
+#[kani::proof]
+#[kani::unwind(12)]
+fn c01_serialise_constant_verbatim() {
+    let mut got = RecSink::new(usize::MAX);
+    let mut want = RecSink::new(usize::MAX);
+    if kani::any() {
+        let c = gen::any_constant(16);
+        assert!(c.write(&mut got).is_ok());
+        want.put(0, 8);
+        ref_put_signed(&mut want, c.dc_offset() as i64, c.bits_per_sample());
+        kani::cover!(c.dc_offset() < 0 && c.bits_per_sample() == 25);
+    } else {
+        let v = gen::any_verbatim::<2>();
+        assert!(v.write(&mut got).is_ok());
+        want.put(0x02u64 << 56, 8);
+        ref_put_signed(&mut want, v.samples()[0] as i64, v.bits_per_sample());
+        ref_put_signed(&mut want, v.samples()[1] as i64, v.bits_per_sample());
+        kani::cover!(v.samples()[1] < 0 && v.bits_per_sample() == 13);
+        std::mem::forget(v);
+    }
+    assert!(got.len == want.len);
+    assert!(got.is_prefix_of(&want) && want.is_prefix_of(&got));
+}
+
+fn serialise_residual_case<const B: usize, const PO: u8, const NP: usize>(max_q: u32) -> bool {
     let warmup: usize = kani::any();
     kani::assume(warmup <= B / NP && warmup <= 2);
     let r = gen::any_residual::<B, PO, NP>(warmup, max_q);
-    assert!(gen::valid_residual(&r));
-    let mut sink = RecSink::new(usize::MAX);
-    let w = r.write(&mut sink);
+    let mut got = RecSink::new(usize::MAX);
+    let mut want = RecSink::new(usize::MAX);
+    let w = r.write(&mut got);
     assert!(w.is_ok());
     std::mem::forget(w);
-    assert!(sink.len == r.count_bits());
-    let bytes = rec_bytes(&sink);
-    let mut rd = rf::BitReader::new(&bytes);
-    let mut res = [0i64; rsub::MAXB];
-    let po = rsub::decode_residual(&mut rd, B, warmup, &mut res, max_q as usize + 1);
-    assert!(matches!(po, Ok(o) if o == PO as usize));
-    assert!(rd.pos == sink.len && !rd.overrun);
+    ref_put_residual(&mut want, &r);
+    assert!(got.len == want.len && got.len == r.count_bits());
+    assert!(got.is_prefix_of(&want) && want.is_prefix_of(&got));
+    // the crate's own view of the residual values agrees with the zig-zag definition
     let plen = B / NP;
     let mut t = warmup;
     while t < B {
-        let want = unzigzag(r.quotients()[t], r.rice_params()[t / plen], r.remainders()[t]);
-        assert!(res[t] == want);
-        assert!(r.residual(t) as i64 == want);
+        assert!(r.residual(t) as i64 == unzigzag(r.quotients()[t], r.rice_params()[t / plen], r.remainders()[t]));
         t += 1;
     }
-    let c = r.quotients()[B - 1] == max_q && r.rice_params()[NP - 1] == 14;
+    let c = r.quotients()[B - 1] == max_q && r.rice_params()[NP - 1] == 14 && warmup == 1;
     std::mem::forget(r);
     c
 }
 
-//@ prop: C08
-//@ also: C01 C02
-//@ drives: Residual::write (try_repeat!-unrolled loop), Residual::count_bits, Residual::from_parts (cached sums), Residual::residual, BitSink::write_zeros (default method), rice::decode_signbit
-//@ bound: block 4 with 1 or 2 partitions, warm-up 0..=2 within the first partition, Rice parameters 0..=14, remainders below 2^parameter, quotients 0..=3 (the write loop is unrolled by 4: one full round), recording user sink
-//@ asserts: bits written == count_bits(); the RFC 9639 reference residual decoder consumes exactly those bits and returns the zig-zag decoding of (quotient << parameter | remainder) for every non-warm-up sample; Residual::residual(t) agrees; 2-bit method 00, 4-bit order and parameters < 15
+//@ prop: C01
+//@ also: C02 C08
+//@ drives: Residual::write (try_repeat!-unrolled loop), Residual::count_bits, Residual::residual, BitSink::write_zeros (default method), rice::decode_signbit
+//@ bound: block 4 with 1 or 2 partitions, warm-up 0..=2 within the first partition, Rice parameters 0..=14, remainders below 2^parameter, quotients 0..=3 (the write loop is unrolled by 4: one full round)
+//@ asserts: the recorded bits equal the RFC 9639 layout: method 00 | 4-bit partition order | per partition: 4-bit parameter (never 1111), then per non-warm-up sample: quotient zeros, a one, the remainder in parameter bits; length == count_bits(); Residual::residual(t) is the zig-zag decoding of (quotient << parameter | remainder)
 #[kani::proof]
-#[kani::unwind(20)]
-fn c08_residual_block4() {
-    let c = if kani::any() { residual_case::<4, 0, 1>(3) } else { residual_case::<4, 1, 2>(3) };
+#[kani::unwind(12)]
+fn c01_serialise_residual_block4() {
+    let c = if kani::any() { serialise_residual_case::<4, 0, 1>(3) } else { serialise_residual_case::<4, 1, 2>(3) };
     kani::cover!(c);
 }
 
-//@ prop: C08
-//@ also: C01
+//@ prop: C01
 //@ tier: thorough
-//@ drives: Residual::write, Residual::count_bits
-//@ bound: block 8 with 4 partitions (two unrolled rounds + partition switches), quotients 0..=2
-//@ asserts: as c08_residual_block4
+//@ drives: Residual::write with long unary runs and more partitions
+//@ bound: block 8 with 4 partitions, quotients 0..=2; block 4 with quotients 0..=64
+//@ asserts: as c01_serialise_residual_block4
 #[kani::proof]
-#[kani::unwind(20)]
-fn c08_residual_block8_order2() {
-    let c = residual_case::<8, 2, 4>(2);
+#[kani::unwind(12)]
+fn c01_serialise_residual_larger() {
+    let c = if kani::any() { serialise_residual_case::<8, 2, 4>(2) } else { serialise_residual_case::<4, 0, 1>(64) };
     kani::cover!(c);
 }
 
-//@ prop: C08
-//@ tier: thorough
-//@ drives: Residual::write, Residual::count_bits with long unary runs
-//@ bound: block 4, 1 partition, quotients 0..=70 (a zero run longer than one 64-bit word)
-//@ asserts: as c08_residual_block4
+//@ prop: C01
+//@ also: C02 C08
+//@ drives: FixedLpc::write, Lpc::write, QuantizedParameters accessors
+//@ bound: block 4, one partition; fixed order 2 / LPC order 2; widths 8..=25; warm-up samples of that width; precision 1..=15 with coefficients fitting it; shift 0..=15; Rice parameter <= 14; quotients <= 2
+//@ asserts: the recorded bits equal the RFC 9639 layout: 0 | type (001ooo fixed / 1ooooo LPC with order-1) | 0 | warm-up samples | [LPC: precision-1 in 4 bits (never 1111), shift as 5-bit two's complement (non-negative), coefficients in precision bits] | residual
 #[kani::proof]
-#[kani::unwind(80)]
-fn c08_residual_long_quotients() {
-    let c = residual_case::<4, 0, 1>(70);
-    kani::cover!(c);
+#[kani::unwind(12)]
+fn c01_serialise_fixed_and_lpc() {
+    let bps = gen::any_bps();
+    let warm = [gen::any_sample(bps), gen::any_sample(bps)];
+    let mut got = RecSink::new(usize::MAX);
+    let mut want = RecSink::new(usize::MAX);
+    if kani::any() {
+        let f = gen::fixed_from::<2>(warm, gen::any_residual::<4, 0, 1>(2, 2), bps);
+        assert!(f.write(&mut got).is_ok());
+        want.put(((0b001000u64 | 2) << 1) << 56, 8);
+        ref_put_signed(&mut want, warm[0] as i64, bps as usize);
+        ref_put_signed(&mut want, warm[1] as i64, bps as usize);
+        ref_put_residual(&mut want, f.residual());
+        assert!(got.len == f.count_bits());
+        kani::cover!(warm[0] < 0);
+        std::mem::forget(f);
+    } else {
+        let precision: usize = kani::any();
+        kani::assume(precision >= 1 && precision <= 15);
+        let shift: i8 = kani::any();
+        kani::assume(shift >= 0 && shift <= 15);
+        let coefs: [i16; 2] = kani::any();
+        let lim = 1i32 << (precision - 1);
+        kani::assume((coefs[0] as i32) < lim && (coefs[0] as i32) >= -lim && (coefs[1] as i32) < lim && (coefs[1] as i32) >= -lim);
+        let l = gen::lpc_from::<2>(warm, coefs, shift, precision, gen::any_residual::<4, 0, 1>(2, 2), bps);
+        assert!(l.write(&mut got).is_ok());
+        want.put(((0b100000u64 | 1) << 1) << 56, 8);
+        ref_put_signed(&mut want, warm[0] as i64, bps as usize);
+        ref_put_signed(&mut want, warm[1] as i64, bps as usize);
+        want.put(((precision - 1) as u64) << 60, 4);
+        ref_put_signed(&mut want, shift as i64, 5);
+        ref_put_signed(&mut want, coefs[0] as i64, precision);
+        ref_put_signed(&mut want, coefs[1] as i64, precision);
+        ref_put_residual(&mut want, l.residual());
+        assert!(got.len == l.count_bits());
+        kani::cover!(coefs[0] < 0 && shift == 15 && precision == 15);
+        std::mem::forget(l);
+    }
+    assert!(got.len == want.len);
+    assert!(got.is_prefix_of(&want) && want.is_prefix_of(&got));
 }
 
 //@ prop: C08
@@ -578,74 +668,6 @@ fn c08_residual_cached_sums_exact() {
     kani::cover!(exact > (1u64 << 32));
     kani::cover!(exact < 100);
     std::mem::forget(r);
-}
-
-//@ prop: C08
-//@ also: C01 C02
-//@ drives: FixedLpc::write, FixedLpc::count_bits, Lpc::write, Lpc::count_bits, QuantizedParameters accessors
-//@ bound: block 4, one partition, fixed order 0..=2 / LPC order 1..=2, widths 8..=25, warm-up samples of that width, precision 1..=15 with coefficients fitting it, shift 0..=15, Rice parameter <= 14, quotients <= 2
-//@ asserts: bits written == count_bits(); the reference subframe decoder reads type, order, warm-up, precision-1, shift, coefficients, residual back and consumes exactly the bits; it reconstructs the same samples as the crate's own Decode
-#[kani::proof]
-#[kani::unwind(20)]
-fn c08_fixed_and_lpc_subframes() {
-    let bps = gen::any_bps();
-    let sel: u8 = kani::any();
-    let mut sink = RecSink::new(usize::MAX);
-    let mut out = [0i64; rsub::MAXB];
-    if sel == 0 {
-        let f = gen::fixed_from::<0>([], gen::any_residual::<4, 0, 1>(0, 2), bps);
-        let w = f.write(&mut sink);
-        assert!(w.is_ok());
-        std::mem::forget(w);
-        assert!(sink.len == f.count_bits());
-        let bytes = rec_bytes(&sink);
-        let mut rd = rf::BitReader::new(&bytes);
-        let info = rsub::decode_subframe(&mut rd, 4, bps as usize, &mut out, 3);
-        assert!(matches!(info, Ok(i) if i.kind == 2 && i.order == 0));
-        assert!(rd.pos == sink.len);
-        std::mem::forget(f);
-    } else if sel == 1 {
-        let warm = [gen::any_sample(bps), gen::any_sample(bps)];
-        let f = gen::fixed_from::<2>(warm, gen::any_residual::<4, 0, 1>(2, 2), bps);
-        let w = f.write(&mut sink);
-        assert!(w.is_ok());
-        std::mem::forget(w);
-        assert!(sink.len == f.count_bits());
-        let bytes = rec_bytes(&sink);
-        let mut rd = rf::BitReader::new(&bytes);
-        let info = rsub::decode_subframe(&mut rd, 4, bps as usize, &mut out, 3);
-        assert!(matches!(info, Ok(i) if i.kind == 2 && i.order == 2));
-        assert!(rd.pos == sink.len);
-        assert!(out[0] == warm[0] as i64 && out[1] == warm[1] as i64);
-        let e2 = f.residual().residual(2) as i64;
-        assert!(out[2] == 2 * out[1] - out[0] + e2);
-        kani::cover!(warm[0] < 0 && e2 < 0);
-        std::mem::forget(f);
-    } else {
-        let warm = [gen::any_sample(bps), gen::any_sample(bps)];
-        let precision: usize = kani::any();
-        kani::assume(precision >= 1 && precision <= 15);
-        let shift: i8 = kani::any();
-        kani::assume(shift >= 0 && shift <= 15);
-        let coefs: [i16; 2] = kani::any();
-        let lim = 1i32 << (precision - 1);
-        kani::assume((coefs[0] as i32) < lim && (coefs[0] as i32) >= -lim && (coefs[1] as i32) < lim && (coefs[1] as i32) >= -lim);
-        let l = gen::lpc_from::<2>(warm, coefs, shift, precision, gen::any_residual::<4, 0, 1>(2, 2), bps);
-        let w = l.write(&mut sink);
-        assert!(w.is_ok());
-        std::mem::forget(w);
-        assert!(sink.len == l.count_bits());
-        let bytes = rec_bytes(&sink);
-        let mut rd = rf::BitReader::new(&bytes);
-        let info = rsub::decode_subframe(&mut rd, 4, bps as usize, &mut out, 3);
-        assert!(matches!(info, Ok(i) if i.kind == 3 && i.order == 2 && i.precision == precision && i.shift == shift as i32));
-        assert!(rd.pos == sink.len);
-        let e2 = l.residual().residual(2) as i64;
-        let pred = (coefs[0] as i64 * warm[1] as i64 + coefs[1] as i64 * warm[0] as i64) >> shift;
-        assert!(out[2] == pred + e2);
-        kani::cover!(coefs[0] < 0 && shift == 15 && precision == 15);
-        std::mem::forget(l);
-    }
 }
 
 //@ prop: C08
@@ -679,12 +701,27 @@ fn c08_stream_info_layout() {
 
 //@ prop: C08
 //@ expect: fail
-//@ drives: (reachability witness) residual_case::<4,0,1>
-//@ bound: as c08_residual_block4
+//@ drives: (reachability witness) Residual::write into the counting sink
+//@ bound: as c08_subframe_bit_counts
 #[kani::proof]
-#[kani::unwind(20)]
+#[kani::unwind(12)]
 fn c08_vacuity_twin() {
-    let _ = residual_case::<4, 0, 1>(3);
+    let r = gen::any_residual::<4, 0, 1>(0, u32::MAX);
+    let mut sink = CountSink { len: 0 };
+    let _ = r.write(&mut sink);
+    kani::assume(sink.len == r.count_bits());
+    std::mem::forget(r);
+    assert!(false);
+}
+
+//@ prop: C01
+//@ expect: fail
+//@ drives: (reachability witness) serialise_residual_case::<4,0,1>
+//@ bound: as c01_serialise_residual_block4
+#[kani::proof]
+#[kani::unwind(12)]
+fn c01_vacuity_twin() {
+    let _ = serialise_residual_case::<4, 0, 1>(3);
     assert!(false);
 }
 
@@ -812,7 +849,7 @@ pub(crate) fn crc16_update_stub<const L: usize>(crc: u16, _alg: &crc::Algorithm<
 
 //@ prop: C12
 //@ drives: Frame::write (FRAME_CRC_BUFFER path: MemSink<u64> -> byte buffer -> CRC-16 -> caller's sink)
-//@ bound: a frame of header + footer (16-sample header, frame number 3, no subframes: 8 bytes); the sink fails on its k-th operation for every k; frames with subframes are outside the bound (Vec<SubFrame> defeats CBMC, see bare_frame)
+//@ bound: a frame of header + footer (16-sample header, frame number 3, no subframes: 9 bytes); the sink fails on its k-th operation for every k; frames with subframes are outside the bound (Vec<SubFrame> defeats CBMC, see bare_frame)
 //@ asserts: Err(OutputError::Sink), no panic, the failing sink saw k+1 operations, accepted bits are a prefix of the full bitstream
 //@ stubs: alloc::fmt::format -> empty string; crc::crc8::update_table and crc::crc16::update_table -> bitwise reference (contract checked by c02_h8_*)
 #[kani::proof]
@@ -859,7 +896,7 @@ fn c12_failing_sink_frame_precomputed() {
 fn c08_frame_write_counts_and_crc() {
     let mut f = bare_frame();
     let bits = f.count_bits();
-    assert!(bits % 8 == 0 && bits == 48 + 16);
+    assert!(bits % 8 == 0 && bits == 56 + 16); // 16-sample blocks use the 8-bit block-size field
     let mut full = RecSink::new(usize::MAX);
     let r = f.write(&mut full);
     let ok = r.is_ok();
@@ -869,7 +906,7 @@ fn c08_frame_write_counts_and_crc() {
     let n = bits / 8;
     let crc = rf::crc16(&bytes[..n - 2]);
     assert!(bytes[n - 2] == (crc >> 8) as u8 && bytes[n - 1] == crc as u8);
-    assert!(matches!(rf::decode_header(&bytes[..n]), Ok(d) if d.block_size == 16 && d.number == 3 && d.header_bytes == 6 && d.bits == Some(16) && d.channels_code == 0));
+    assert!(matches!(rf::decode_header(&bytes[..n]), Ok(d) if d.block_size == 16 && d.number == 3 && d.header_bytes == 7 && d.bits == Some(16) && d.channels_code == 0));
     f.precompute_bitstream();
     assert!(f.count_bits() == bits);
     let mut full2 = RecSink::new(usize::MAX);
